@@ -18,9 +18,36 @@ def arg_names(body):
     return m
 
 
-def describe(body, op, depth=6):
+def reaching_def(body, l, at_bb):
+    """The unique definition of local `l` that reaches the end of block `at_bb`
+    (for user variables that are reassigned: `let mut x = a; x = f(x);`), or None."""
+    ds = body.defs().get(l, [])
+    lim = getattr(at_bb, 'si', None)
+    at_bb = int(at_bb)
+    same = [d for d in ds if d[1] == at_bb and d[0] == 'stmt' and (lim is None or d[2] < lim)]
+    if same:
+        return max(same, key=lambda d: d[2])
+    doms = [d for d in ds if d[1] != at_bb and body.dominates(d[1], at_bb)]
+    if not doms:
+        return None
+    best = None
+    for d in doms:
+        if all(body.dominates(o[1], d[1]) for o in doms):
+            best = d
+    if best is None:
+        return None
+    for o in ds:
+        if o is best or o in doms:
+            continue
+        after = body.reach_after(best[1])
+        if o[1] in after and at_bb in body.reach_after(o[1]) | {o[1]}:
+            return None
+    return best
+
+
+def describe(body, op, depth=6, at=None):
     """Structural description of an operand (a string that is stable under
-    renumbering of temporaries)."""
+    renumbering of temporaries).  `at` = block of the use, to resolve reassigned variables."""
     if depth <= 0:
         return '?'
     if is_const(op):
@@ -36,24 +63,52 @@ def describe(body, op, depth=6):
         return '?'
     pl = op['pl']
     l = pl['l']
+    if pl['p'] and pl['p'][0][0] in ('field', 'downcast') and not (1 <= l <= body.arg_count) \
+            and body.local_name(l) is None and len(body.defs().get(l, [])) == 1:
+        # projection of a temporary holding a value: describe the value, then the projection
+        base = describe(body, {'k': 'copy', 'pl': {'l': l, 'p': []}}, depth - 1, at=at)
+        suf = ''
+        for pr in pl['p']:
+            if pr[0] == 'field':
+                suf += '.' + pr[2]
+            elif pr[0] == 'downcast':
+                suf += ' as ' + pr[1]
+            elif pr[0] == 'deref':
+                suf = '(*' + suf + ')'
+            else:
+                suf += '.<%s>' % pr[0]
+        return base + suf
     if pl['p'] or 1 <= l <= body.arg_count:
         return pretty_place(body, pl)
     ds = body.defs().get(l, [])
     if len(ds) != 1:
-        n = body.local_name(l)
-        return n if n else 'multi(_%d)' % l
-    d = ds[0]
+        d = reaching_def(body, l, at) if at is not None else None
+        if d is None:
+            n = body.local_name(l)
+            return n if n else 'multi(_%d)' % l
+        at2 = d[1]
+    else:
+        d = ds[0]
+        at2 = d[1]
     if d[0] == 'call':
         t = d[2]
-        return '%s(%s)' % (callee_path(t), ', '.join(describe(body, a, depth - 1) for a in t['args']))
+        return '%s(%s)' % (callee_path(t), ', '.join(describe(body, a, depth - 1, at=at2) for a in t['args']))
     rv = d[3]['rv']
-    return describe_rv(body, rv, depth)
+    if len(ds) != 1 and d[0] == 'stmt':
+        # a reassignment `x = g(x)`: the operands are evaluated before this statement; look them up
+        # from the predecessors' point of view by excluding this very definition
+        return describe_rv(body, rv, depth, at=('before', d[1], d[2]))
+    return describe_rv(body, rv, depth, at=at2)
 
 
-def describe_rv(body, rv, depth=6):
+def describe_rv(body, rv, depth=6, at=None):
     k = rv['k']
+    if isinstance(at, tuple):
+        # operands of the reassignment at (bb, si): resolve reads of the same variable to the previous definition
+        _, bbx, six = at
+        at = _PrevPoint(bbx, six)
     if k == 'use':
-        return describe(body, rv['op'], depth)
+        return describe(body, rv['op'], depth, at=at)
     if k in ('ref', 'rawptr'):
         pl = rv['pl']
         if not pl['p'] and not (1 <= pl['l'] <= body.arg_count) and body.single_def(pl['l']) is not None \
@@ -71,11 +126,11 @@ def describe_rv(body, rv, depth=6):
                 return describe_rv(body, d[3]['rv'], depth - 1)
         return '&' + pretty_place(body, pl)
     if k == 'cast':
-        return describe(body, rv['op'], depth - 1)
+        return describe(body, rv['op'], depth - 1, at=at)
     if k == 'bin':
-        return '%s(%s, %s)' % (rv['op'], describe(body, rv['a'], depth - 1), describe(body, rv['b'], depth - 1))
+        return '%s(%s, %s)' % (rv['op'], describe(body, rv['a'], depth - 1, at=at), describe(body, rv['b'], depth - 1, at=at))
     if k == 'un':
-        return '%s(%s)' % (rv['op'], describe(body, rv['a'], depth - 1))
+        return '%s(%s)' % (rv['op'], describe(body, rv['a'], depth - 1, at=at))
     if k == 'discr':
         return 'discr(%s)' % pretty_place(body, value_origin(body, rv['pl']))
     if k == 'agg':
@@ -132,6 +187,14 @@ def switch_info(body, bb):
             for val, name in rv['variants']:
                 labels[val] = name
     return describe(body, op), labels, discr_place
+
+
+class _PrevPoint(int):
+    """A use point strictly before statement `si` of block `bb` (int value = bb)."""
+    def __new__(cls, bb, si):
+        o = int.__new__(cls, bb)
+        o.si = si
+        return o
 
 
 class PathResult:
@@ -248,7 +311,7 @@ def explore(body, tracked=None, summaries=None, max_states=20000, on_call=None):
                 results.append(PathResult('diverge', env, decisions, blocks, ret, calls2))
                 continue
             if not t['dest']['p'] and t['dest']['l'] == 0:
-                ret = '%s(..)' % cp
+                ret = '%s(%s)' % (cp, ', '.join(describe(body, a, 4, at=bb) for a in t['args']))
             envs = [env]
             if summaries and cp in summaries:
                 envs = summaries[cp](env, t, body)
